@@ -35,6 +35,7 @@ import DdsModel.Proofs.Enc13Single
 import DdsModel.Proofs.Enc7Consequences
 import DdsModel.Proofs.Enc7Stats
 import DdsModel.Proofs.EncBc15Bc2
+import DdsModel.Proofs.EncBc15PaletteBc4
 namespace Dds.C13
 open Dds Dds.Bc Dds.Enc13
 
@@ -918,5 +919,128 @@ example :
     (Bc.decodeBlock .bc2 .u8 (blkOf (concatBlocks (bc2AlphaBlock ((List.range 16).map (17 * ·)))
       [148, 247, 67, 8, 0xE4, 0xE4, 0xE4, 0xE4]))).take 4 =
       [[247, 243, 165, 0], [8, 8, 25, 17], [167, 165, 118, 34], [88, 86, 71, 51]] := by decide +kernel
+
+open Dds.Enc15 in
+/-- T3 (colour). The encoder's OWN palette of bc1.rs, evaluated in binary32 exactly as `R5G6B5Color::to_vec`
+(`n5::f32`, `n6::f32`) and `Palette::new_p4` (`c0 * (2/3) + c1 * (1/3)`, `c0 * (1/3) + c1 * (2/3)`) / `Palette::new_p3`
+(`(c0 + c1) * 0.5`) compute it, against the decoder's palette.  For BOTH channel widths, EVERY pair of endpoint levels
+(32 × 32, 64 × 64), both modes and every entry that can be selected (4 in P4, 3 in P3): the f32 entry `v`
+* is finite, non-negative, with negative exponent, so that its value is the fraction `f32Frac v` (first clause: this IS
+  `CF32.toRat v`);
+* rounds to nearest (`⌊255·v + ½⌋`) to exactly the 8-bit value the DECODER shows for that entry
+  (`BcSpec.chan8` = `Bc`'s multiply-add-shift palette, C03) — including the exact ties `a + b = 31` / `63` of the P3 mid
+  colour, where `(c0 + c1) * 0.5` is exactly `0.5` and both sides go up;
+* lies within `2^-22` of the exact rational entry `(w0·a + w1·b)/((w0 + w1)·m)`, which is the specification's entry.
+So the errors the encoder minimises are errors against the decoded colours up to 8-bit rounding.  Kernel-checked by
+complete evaluation (`Proofs/EncBc15Pal5.lean`, `Pal6a … h`). -/
+theorem bc1_palette_f32_rounds_to_decoder :
+    (∀ v, f32Small v = true → CF32.toRat v = ((f32Frac v).1 : Rat) / ((f32Frac v).2 : Rat)) ∧
+    (∀ (mode : PaletteMode) (a b k : Nat), a ≤ 31 → b ≤ 31 → k < (if mode = .p3 then 3 else 4) →
+      let v := paletteEntry mode (Conv.n5f32 a) (Conv.n5f32 b) k
+      let w := paletteWeights mode k
+      f32Small v = true ∧ f32Nearest8 v = BcSpec.chan8 (decide (mode = .p4)) k a b 31 ∧
+      f32Within22 v (w.1 * a + w.2 * b) ((w.1 + w.2) * 31) = true ∧
+      BcSpec.colorEntry (decide (mode = .p4)) k a b 31 = some (BcSpec.interp w.1 w.2 a b 31)) ∧
+    (∀ (mode : PaletteMode) (a b k : Nat), a ≤ 63 → b ≤ 63 → k < (if mode = .p3 then 3 else 4) →
+      let v := paletteEntry mode (Conv.n6f32 a) (Conv.n6f32 b) k
+      let w := paletteWeights mode k
+      f32Small v = true ∧ f32Nearest8 v = BcSpec.chan8 (decide (mode = .p4)) k a b 63 ∧
+      f32Within22 v (w.1 * a + w.2 * b) ((w.1 + w.2) * 63) = true ∧
+      BcSpec.colorEntry (decide (mode = .p4)) k a b 63 = some (BcSpec.interp w.1 w.2 a b 63)) := by
+  have hw : ∀ (mode : PaletteMode) (a b k m : Nat), k < (if mode = .p3 then 3 else 4) →
+      BcSpec.colorEntry (decide (mode = .p4)) k a b m =
+        some (BcSpec.interp (paletteWeights mode k).1 (paletteWeights mode k).2 a b m) := by
+    intro mode a b k m hk
+    cases mode with
+    | p4 =>
+      simp only [reduceCtorEq, if_false] at hk
+      have : k = 0 ∨ k = 1 ∨ k = 2 ∨ k = 3 := by omega
+      rcases this with rfl | rfl | rfl | rfl <;> rfl
+    | p3 =>
+      simp only [if_true] at hk
+      have : k = 0 ∨ k = 1 ∨ k = 2 := by omega
+      rcases this with rfl | rfl | rfl <;> rfl
+  refine ⟨f32Frac_spec, ?_, ?_⟩
+  · intro mode a b k ha hb hk
+    have h := (okEntry_iff _ _ _ _).mp (palette5 mode a b k ha hb hk)
+    exact ⟨h.1, h.2.1, h.2.2, hw mode a b k 31 hk⟩
+  · intro mode a b k ha hb hk
+    have h := (okEntry_iff _ _ _ _).mp (palette6 mode a b k ha hb hk)
+    exact ⟨h.1, h.2.1, h.2.2, hw mode a b k 63 hk⟩
+
+open Dds.Enc15 in
+/-- the P4 entry 3 of red endpoints 1 and 30 is the pattern 1059580410 = 0.65591…, which rounds to 167 = the decoder's
+second third colour; the P3 mid of 1 and 30 is exactly 0.5 (a tie: 127.5) and both sides show 128 -/
+example :
+    paletteEntry .p4 (Conv.n5f32 1) (Conv.n5f32 30) 3 = 1059580410 ∧ f32Nearest8 1059580410 = 167 ∧
+    BcSpec.chan8 true 3 1 30 31 = 167 ∧
+    paletteEntry .p3 (Conv.n5f32 1) (Conv.n5f32 30) 2 = 0x3F000000 ∧ f32Frac 0x3F000000 = (8388608, 16777216) ∧
+    f32Nearest8 0x3F000000 = 128 ∧ BcSpec.chan8 false 2 1 30 31 = 128 := by decide +kernel
+
+open Dds.Enc15 in
+/-- T3 (index maps of bc4.rs). `Inter6Palette::closest` turns the interpolation step `j = blend7` (counted from `c1`:
+`closest = j·factor2 + c1`) into the index `INDEX_MAP[j]`; for EVERY endpoint pair that index's entry of the decoder's
+eight-value palette is exactly the `j`-th point: weights `j : 7 − j` on `(c0, c1)` (`j = 0` ↦ `c1`, `j = 7` ↦ `c0`), and
+`INDEX_MAP` is a permutation of `0..7`.  `Inter4Palette` uses the index as position in `colors`: entry `k` of the
+decoder's six-value palette has weights `6 − k : k − 1` (the `0.8/0.2 … 0.2/0.8` of `Inter4Palette::new`), 6 is 0, 7 is 1. -/
+theorem bc4_index_map_spec (c0 c1 m : Nat) :
+    (∀ j, 1 ≤ j → j ≤ 6 → intended4 true c0 c1 m (INDEX_MAP.getD j 0) = BcSpec.interp j (7 - j) c0 c1 m) ∧
+    intended4 true c0 c1 m (INDEX_MAP.getD 0 0) = BcSpec.interp 0 1 c0 c1 m ∧
+    intended4 true c0 c1 m (INDEX_MAP.getD 7 0) = BcSpec.interp 1 0 c0 c1 m ∧
+    (∀ k, k < 8 → ∃ j, j < 8 ∧ INDEX_MAP.getD j 0 = k) ∧
+    intended4 false c0 c1 m 0 = BcSpec.interp 1 0 c0 c1 m ∧ intended4 false c0 c1 m 1 = BcSpec.interp 0 1 c0 c1 m ∧
+    (∀ k, 2 ≤ k → k ≤ 5 → intended4 false c0 c1 m k = BcSpec.interp (6 - k) (k - 1) c0 c1 m) ∧
+    intended4 false c0 c1 m 6 = 0 ∧ intended4 false c0 c1 m 7 = 1 := by
+  have h4 := indexMap4 c0 c1 m
+  refine ⟨indexMap6 c0 c1 m, (indexMap6_ends c0 c1 m).1, (indexMap6_ends c0 c1 m).2, ?_, h4.1, h4.2.1, h4.2.2.1,
+    h4.2.2.2.1, h4.2.2.2.2⟩
+  decide
+
+open Dds.Enc15 in
+/-- T3 (BC4 palettes in binary32), PARTIAL.  Full statement: for EVERY pair of endpoint levels `hi > lo` (UNORM bytes
+`0..255`, SNORM levels `0..254` written as `from_norm`), the value `Inter6Palette::closest` computes for step `j`,
+`j as f32 * factor2 + c1` with `factor2 = (1/7)·(c0 − c1)` over `n8::f32` / `s8::uf32`, and the eight
+`Inter4Palette::new(c0, c1).colors` (`c0 * 0.8 + c1 * 0.2` …) round to the decoder's 8-bit entry of the written index
+(exact ties of the exact entry excepted — they exist only under SNORM, e.g. 889/1778 — where the decoder goes up) and lie
+within `2^-22` of the exact entry.  PROVED here on the sub-domain `hi = max, lo ≥ 1` and `hi = lo + 1, lo ≥ 1` (2 × 254 resp.
+2 × 253 pairs per mode; steps `j = 1..7`, all 8 entries of the four-interpolant palette), kernel-checked
+(`Proofs/EncBc15Pal4*.lean`).  GAP: the remaining pairs (4 × 32 640 pairs ≈ 30 operations × 1–2 ms in the kernel ≈ 1–2 h)
+and step 0 / `lo = 0` (adding a zero in the software float aligns 150-bit integers whose `Nat.log2` costs the kernel
+seconds) are evaluated by the compiled model only (the same checks over the whole domain: no exception for UNORM; under
+SNORM 2 + 79 exact ties; notes/C13.md) — a test, not a theorem.  The emitted INDEXES do not depend on these values (`bc4_index_map_spec`; `cl15`). -/
+theorem bc4_palette_f32_partial (snorm : Bool) (kind i : Nat) (hk : kind < 2) (hi : i + 1 < denOf snorm) :
+    let hl := subPair snorm kind i
+    hl.2 < hl.1 ∧ hl.1 ≤ denOf snorm ∧ 1 ≤ hl.2 ∧
+    (∀ j, 1 ≤ j → j < 8 →
+      let e := endpointsOfBytes snorm (byteOf snorm hl.1) (byteOf snorm hl.2)
+      let v := (Inter6Palette.new e.c0f e.c1f).stepValue j
+      f32Small v = true ∧
+      (f32Nearest8 v = dec4 snorm true hl.1 hl.2 (INDEX_MAP.getD j 0) ∨
+        510 * (j * hl.1 + (7 - j) * hl.2) + 7 * denOf snorm =
+          2 * dec4 snorm true hl.1 hl.2 (INDEX_MAP.getD j 0) * (7 * denOf snorm)) ∧
+      f32Within22 v (j * hl.1 + (7 - j) * hl.2) (7 * denOf snorm) = true) ∧
+    (∀ k, k < 8 →
+      let e := endpointsOfBytes snorm (byteOf snorm hl.2) (byteOf snorm hl.1)
+      let v := (inter4Colors e.c0f e.c1f).getD k 0
+      f32Small v = true ∧
+      (f32Nearest8 v = dec4 snorm false hl.2 hl.1 k ∨
+        510 * num4 hl.2 hl.1 (denOf snorm) k + den4 (denOf snorm) k =
+          2 * dec4 snorm false hl.2 hl.1 k * den4 (denOf snorm) k) ∧
+      f32Within22 v (num4 hl.2 hl.1 (denOf snorm) k) (den4 (denOf snorm) k) = true) ∧
+    (∀ six l0 l1 k, dec4 false six l0 l1 k = Bc.bc4Lut (Bc.bc4uOps .u8) l0 l1 l0 l1 six k) ∧
+    (∀ six l0 l1 k, dec4 true six l0 l1 k =
+      Bc.bc4Lut (Bc.bc4sOps .u8) (Bc.s8n8 (fromNorm l0)) (Bc.s8n8 (fromNorm l1)) l0 l1 six k) := by
+  have f := subPair_facts snorm kind i hi
+  have h := bc4_palette_sub snorm kind i hk hi
+  exact ⟨f.1, f.2.1, f.2.2.2, fun j hj1 hj => (okEntryT_iff _ _ _ _).mp (h.1 j hj1 hj),
+    fun k hk8 => (okEntryT_iff _ _ _ _).mp (h.2 k hk8), dec4_unorm, dec4_snorm⟩
+
+open Dds.Enc15 in
+/-- UNORM pair (255, 1): step 3 has index 5, the decoder shows 110 and so does the f32 value; SNORM levels (254, 1) are
+the bytes (127, 0x82) -/
+example :
+    subPair false 0 0 = (255, 1) ∧ INDEX_MAP.getD 3 0 = 5 ∧ dec4 false true 255 1 5 = 110 ∧
+    f32Nearest8 ((Inter6Palette.new (Conv.n8f32 255) (Conv.n8f32 1)).stepValue 3) = 110 ∧
+    subPair true 0 0 = (254, 1) ∧ byteOf true 254 = 127 ∧ byteOf true 1 = 130 := by decide +kernel
 
 end Dds.C13
